@@ -178,8 +178,8 @@ class Gen:
         if names and rng.random() < self.pattern_overlap:
             # a pattern that matches the JSON name of a declared property
             json_name = RENAMES.get(names[0], names[0])
-            first = json_name[0]
-            pattern = "^" + (first if first.isalnum() else ".")
+            first = json_name[:1]
+            pattern = "^$" if not json_name else "^" + (first if first.isalnum() else ".")
             kw["patternProperties"] = {pattern: self.spec(depth - 1)}
         elif rng.random() < 0.3:
             kw["patternProperties"] = {
